@@ -183,5 +183,32 @@ class Check(PropertyCheck):
                                   found_input=True, signature="status:stack-status-site")
                     break
         rep.cov["stack_status_event_sites"] = n
+        # "never raises" under every process-wide policy: with Python warnings escalated to errors (python -W error, pytest's
+        # filterwarnings = error) a conversion that announces something through the warnings module raises; the result must be
+        # the one obtained under the default policy
+        import warnings
+        nw = 0
+        bad = None
+        inputs = [fam(v) for fam in (t.EmberStatus, t.EzspStatus) for v in range(256)] + list(t.sl_Status) \
+            + [t.sl_Status(x) for x in (0x66, 0x93, 0xA1, 0x0FFF, 0x12345678, 0xFFFFFFFF)]
+        for x in inputs:
+            try:
+                ref = t.sl_Status.from_ember_status(x)
+            except BaseException as e:  # noqa
+                ref = ("raised", repr(e))
+            with warnings.catch_warnings():
+                warnings.simplefilter("error")
+                try:
+                    got = t.sl_Status.from_ember_status(x)
+                except BaseException as e:  # noqa
+                    got = ("raised", repr(e))
+            nw += 1
+            if isinstance(got, tuple) or got != ref:
+                bad = {"input": {"status": repr(x), "family": type(x).__name__, "warnings": "escalated to errors"},
+                       "observed": repr(got), "required": f"conversion never raises; under the default policy the result is {ref!r}"}
+                break
+        rep.cov["conversions_with_warnings_as_errors"] = nw
+        if bad:
+            rep.violation(bad, found_input=True, signature="status:raises-under-warnings-as-errors")
         rep.cov["exhaustive"] = True
         rep.cov["exhaustive_over"] = "both 8-bit legacy families (512 inputs) and all defined unified members"
